@@ -46,22 +46,37 @@ fn c13_format_bar_geometry() {
     let cells = width / cw;
     let fill = fract * cells as f32;
     // filled cells: floor(fraction * cells), never more than the bar has
-    assert!(bar.filled == fill as usize, "filled == floor(fraction*cells)");
+    assert!(
+        bar.filled == fill as usize,
+        "filled == floor(fraction*cells)"
+    );
     assert!(bar.filled <= cells, "filled <= cells");
     // exactly one partial cell iff the bar is neither empty nor full
-    assert!(bar.cur.is_some() == (fill > 0.0 && bar.filled < cells), "partial cell iff neither empty nor full");
+    assert!(
+        bar.cur.is_some() == (fill > 0.0 && bar.filled < cells),
+        "partial cell iff neither empty nor full"
+    );
     if fract == 0.0 {
         assert!(bar.filled == 0 && bar.cur.is_none(), "empty at fraction 0");
     }
     if fract == 1.0 {
-        assert!(bar.filled == cells && bar.cur.is_none(), "full at fraction 1");
+        assert!(
+            bar.filled == cells && bar.cur.is_none(),
+            "full at fraction 1"
+        );
     }
     // the partial cell is one of the configured progress characters
     if let Some(c) = bar.cur {
-        assert!(c >= 1 && c < nchars, "partial cell index within progress_chars");
+        assert!(
+            c >= 1 && c < nchars,
+            "partial cell index within progress_chars"
+        );
         assert!(c < bar.chars.len(), "index valid for BarDisplay::fmt");
     }
-    kani::cover!(bar.cur.is_some() && bar.filled > 0, "cover: partially filled");
+    kani::cover!(
+        bar.cur.is_some() && bar.filled > 0,
+        "cover: partially filled"
+    );
 }
 
 fn mk_state(pos: u64, len: Option<u64>) -> ProgressState {
@@ -87,11 +102,17 @@ fn c13_full_iff_complete() {
     let width: usize = kani::any();
     kani::assume(width >= 1 && width <= 65_535);
     let bar = style.format_bar(st.fraction(), width, None);
-    assert!((bar.filled == width) == (pos >= len), "full exactly when position >= length");
+    assert!(
+        (bar.filled == width) == (pos >= len),
+        "full exactly when position >= length"
+    );
     if pos == 0 {
         assert!(bar.filled == 0, "empty at position 0");
     }
-    kani::cover!(bar.filled > 0 && bar.filled < width, "cover: strictly inside");
+    kani::cover!(
+        bar.filled > 0 && bar.filled < width,
+        "cover: strictly inside"
+    );
 }
 
 fn zero_instant() -> Instant {
@@ -115,6 +136,9 @@ fn c13_filled_monotone() {
     kani::assume(width <= 255);
     let b1 = style.format_bar(mk_state(p1, Some(len)).fraction(), width, None);
     let b2 = style.format_bar(mk_state(p2, Some(len)).fraction(), width, None);
-    assert!(b1.filled <= b2.filled, "filled count is monotone in the position");
+    assert!(
+        b1.filled <= b2.filled,
+        "filled count is monotone in the position"
+    );
     kani::cover!(b1.filled < b2.filled, "cover: strictly increasing");
 }
